@@ -338,7 +338,7 @@ def rerun(case, drain=True):
 
 # ------------------------------------------------------------------ reference (synchronous semantics)
 
-def reference_case(case):
+def reference_case(case, keep_md=False):
     """Same pipeline with the timing removed: buffer/delay/rate_limit -> identity, map_async f -> map f (preceded by a
     failing map when the callable rejects some arguments), zip(maxsize) -> zip; batching nodes become element-wise."""
     nodes = []
@@ -368,7 +368,8 @@ def reference_case(case):
     ops = []
     for op in elementary(case):
         if op["op"] == "emit":
-            ops.append(dict(op, md=[], node=remap[op["node"]]))
+            md = [{"tag": e["tag"], "ref": None} for e in op.get("md", [])] if keep_md else []
+            ops.append(dict(op, md=md, node=remap[op["node"]]))
         elif op["op"] in ("connect", "disconnect"):
             ops.append({"op": op["op"], "up": remap[op["up"]], "down": remap[op["down"]]})
     return {"mode": "sync", "nodes": nodes, "ops": ops, "remap": remap}
@@ -460,6 +461,56 @@ def oracle_lossless(case, obs):
                 kind = "reordered-or-altered"
             problems.append(("delivery-" + kind + ":" + "+".join(sorted({k for k in chain if k in HOLDING})),
                              "sink %d received %r; the synchronous semantics prescribe %r" % (s, g, w)))
+    return problems
+
+
+def sink_tag_sequences(case, obs):
+    seqs = {i: [] for i, n in enumerate(case["nodes"]) if n["kind"] == "sink"}
+    for o in obs:
+        for e in o["log"]:
+            if e[0] == "arrive" and e[1] in seqs:
+                seqs[e[1]] += list(e[4])
+    return seqs
+
+
+def oracle_metadata(case, obs):
+    """C10 on asynchronous pipelines: at quiescence every sink has received, in order, exactly the metadata entries the synchronous
+    semantics deliver to it (batching concatenates its members' metadata in member order, so the concatenation over all deliveries
+    does not depend on where the batch boundaries fall)."""
+    nodes = case["nodes"]
+    if any(n["kind"] in LOSSY for n in nodes) or any(op["op"] in ("jobfail", "sinkfail") for op in elementary(case)):
+        return []
+    if any(n["kind"] == "sink" and (n.get("f") or [""])[0] == "failIf" for n in nodes) or any(n.get("callfail") for n in nodes):
+        return []
+    ref = reference_case(case, keep_md=True)
+    for nd in ref["nodes"]:
+        if nd.get("f") == ["pair1"]:
+            nd["f"] = ["rep", 1]
+    robs = graphlib.run_case(ref)
+    want_ref = sink_tag_sequences(ref, robs)
+    got = sink_tag_sequences(case, obs)
+    problems = []
+    for s_ in got:
+        w, g = want_ref[ref["remap"][s_]], got[s_]
+        ups_idx = upstream_chain(nodes, s_)
+        # flatten attaches a batch's metadata to its LAST piece: a node that drops pieces below a batching node legitimately drops
+        # metadata depending on where the batch boundaries fell - no claim for such a sink
+        dropping_below_batch, seen_drop = False, False
+        cur = s_
+        while nodes[cur].get("ups"):
+            cur = nodes[cur]["ups"][0]
+            if nodes[cur]["kind"] in ("filter", "slice", "unique", "sliding_window"):     # (a window re-associates pieces and metadata)
+                seen_drop = True
+            if nodes[cur]["kind"] in BATCHING and seen_drop:
+                dropping_below_batch = True
+        if dropping_below_batch:
+            continue
+        if any(nodes[u]["kind"] == "partition_timeout" and nodes[u].get("key") for u in ups_idx):
+            w, g = sorted(w), sorted(g)
+        if g != w:
+            chain = "+".join(sorted({nodes[u]["kind"] for u in ups_idx if nodes[u]["kind"] in HOLDING}))
+            problems.append(("metadata:" + chain, "sink %d received the metadata tags %r over all its deliveries; the elements it received carry %r "
+                             "(synchronous semantics)" % (s_, g, w)))
     return problems
 
 
@@ -832,7 +883,7 @@ def oracle_windows(case, obs):
     return problems
 
 
-ORACLES = {"lossless": oracle_lossless, "early": oracle_early_callback, "balance": oracle_balance,
+ORACLES = {"metadata": oracle_metadata, "lossless": oracle_lossless, "early": oracle_early_callback, "balance": oracle_balance,
            "backpressure": oracle_backpressure, "windows": oracle_windows}
 
 
